@@ -21,6 +21,7 @@ import (
 	"strconv"
 	"strings"
 	"sync"
+	"sync/atomic"
 	"syscall"
 	"time"
 
@@ -60,6 +61,7 @@ type CallSpec struct {
 	TimeoutMs  int    `json:"timeout_ms,omitempty"`  // for percall / ctx
 	PayloadLen int    `json:"payload_len,omitempty"` // pad the payload to this many bytes
 	MustOK     bool   `json:"must_ok,omitempty"`     // the script answers this call correctly and long before its deadline
+	Proxy      int    `json:"proxy,omitempty"`       // which ServantProxy object makes the call (see Scenario.Proxies)
 }
 
 type ClientConf struct {
@@ -90,6 +92,52 @@ type Scenario struct {
 	Record  bool         `json:"record,omitempty"` // keep the event history for the model
 	CapMs   int          `json:"cap_ms"`           // hard limit of the whole scenario
 	Gen     *GenSpec     `json:"gen,omitempty"`
+	// Filter selects the dispatch path inside ServantProxy.TarsInvoke: "" (no client filter: direct
+	// doInvoke), "single" (tars.RegisterClientFilter), "middleware" (tars.UseClientFilterMiddleware, two
+	// links), "prepost" (tars.RegisterPreClientFilter + RegisterPostClientFilter around the direct call).
+	// All filters are pass-through: they hand ctx, msg and timeout on unchanged. The filter set is
+	// application-wide state; every scenario runs in its own child process, so nothing has to be restored.
+	Filter string `json:"filter,omitempty"`
+	// Proxies is the number of ServantProxy objects created for the SAME object name on the one
+	// Communicator (0 = 1). Every StringToProxy creates a new ServantProxy (own queueLen), but the endpoint
+	// manager and its AdapterProxy objects (pending-reply tables, connections) are cached per object name
+	// and shared by all of them.
+	Proxies int `json:"proxies,omitempty"`
+}
+
+// FilterPaths are the dispatch paths of TarsInvoke.
+var FilterPaths = []string{"", "single", "middleware", "prepost"}
+
+var filterCalls int64
+
+func installFilters(kind string) error {
+	pass := func(ctx context.Context, msg *tars.Message, invoke tars.Invoke, timeout time.Duration) error {
+		atomic.AddInt64(&filterCalls, 1)
+		return invoke(ctx, msg, timeout)
+	}
+	observe := func(ctx context.Context, msg *tars.Message, invoke tars.Invoke, timeout time.Duration) error {
+		atomic.AddInt64(&filterCalls, 1)
+		return nil
+	}
+	link := func(next tars.ClientFilter) tars.ClientFilter {
+		return func(ctx context.Context, msg *tars.Message, invoke tars.Invoke, timeout time.Duration) error {
+			atomic.AddInt64(&filterCalls, 1)
+			return next(ctx, msg, invoke, timeout)
+		}
+	}
+	switch kind {
+	case "", "none":
+	case "single":
+		tars.RegisterClientFilter(pass)
+	case "middleware":
+		tars.UseClientFilterMiddleware(link, link)
+	case "prepost":
+		tars.RegisterPreClientFilter(observe)
+		tars.RegisterPostClientFilter(observe)
+	default:
+		return fmt.Errorf("unknown filter path %q", kind)
+	}
+	return nil
 }
 
 // ---- result ----
@@ -127,12 +175,13 @@ type Sent struct {
 }
 
 type Counters struct {
-	AfterWave int   `json:"after_wave"`
-	QueueLen  int32 `json:"queue_len"`
-	InvokeNum int32 `json:"invoke_num"`
-	Pending   int   `json:"pending"`
-	Adapters  int   `json:"adapters"`
-	MsgID     int32 `json:"msgid"`
+	AfterWave int     `json:"after_wave"`
+	QueueLen  int32   `json:"queue_len"`            // of proxy 0
+	QueueLens []int32 `json:"queue_lens,omitempty"` // per ServantProxy object (when there are several)
+	InvokeNum int32   `json:"invoke_num"`
+	Pending   int     `json:"pending"`
+	Adapters  int     `json:"adapters"`
+	MsgID     int32   `json:"msgid"`
 }
 
 type Result struct {
@@ -146,6 +195,7 @@ type Result struct {
 	GenSeq    []int32      `json:"gen_seq,omitempty"`
 	GenPar    [][]int32    `json:"gen_par,omitempty"`
 	Capped    bool         `json:"capped,omitempty"`
+	FilterHit int64        `json:"filter_hit,omitempty"` // invocations of the installed pass-through client filters
 	Error     string       `json:"error,omitempty"`
 	WallMs    int64        `json:"wall_ms"`
 }
@@ -259,6 +309,7 @@ type runner struct {
 	nB   int
 	rng  *rand.Rand
 	stop chan struct{}
+	prxs []*prx
 }
 
 func (r *runner) us() int64 { return time.Since(r.t0).Microseconds() }
@@ -599,26 +650,47 @@ func (fs *fakeServer) close() {
 	fs.mu.Unlock()
 }
 
-func (r *runner) counters(p *prx, wave int) {
-	sp, ok := p.s.(*tars.ServantProxy)
-	if !ok {
-		return
+func (r *runner) counters(wave int) {
+	var qs []int32
+	var c Counters
+	for k, p := range r.prxs {
+		sp, ok := p.s.(*tars.ServantProxy)
+		if !ok {
+			return
+		}
+		cs := tars.VerifCallState(sp)
+		qs = append(qs, cs.QueueLen)
+		if k == 0 {
+			c = Counters{AfterWave: wave, QueueLen: cs.QueueLen, InvokeNum: cs.InvokeNum, Pending: cs.Pending, Adapters: cs.Adapters, MsgID: tars.VerifGetMsgID()}
+		}
 	}
-	cs := tars.VerifCallState(sp)
-	c := Counters{AfterWave: wave, QueueLen: cs.QueueLen, InvokeNum: cs.InvokeNum, Pending: cs.Pending, Adapters: cs.Adapters, MsgID: tars.VerifGetMsgID()}
+	qtok := fmt.Sprint(c.QueueLen)
+	if len(r.prxs) > 1 {
+		c.QueueLens = qs
+		parts := make([]string, len(qs))
+		for k, q := range qs {
+			parts[k] = fmt.Sprint(q)
+		}
+		qtok = strings.Join(parts, ",")
+	}
 	r.mu.Lock()
 	r.res.Counters = append(r.res.Counters, c)
-	r.ev(fmt.Sprintf("Z.%d.%d.%d", c.QueueLen, c.Pending, c.InvokeNum))
+	r.ev(fmt.Sprintf("Z.%s.%d.%d", qtok, c.Pending, c.InvokeNum))
 	r.ev(fmt.Sprintf("M.%d", c.MsgID))
 	r.mu.Unlock()
 }
 
-func (r *runner) oneCall(p *prx, specIdx int, cs CallSpec, done chan<- struct{}) {
+func (r *runner) oneCall(specIdx int, cs CallSpec, done chan<- struct{}) {
 	defer func() { done <- struct{}{} }()
+	p := r.prxs[cs.Proxy%len(r.prxs)]
 	r.mu.Lock()
 	i := r.nB
 	r.nB++
-	r.ev(fmt.Sprintf("B.%d.%d.%d", i, b2i(cs.Oneway), i))
+	if len(r.prxs) > 1 {
+		r.ev(fmt.Sprintf("B.%d.%d.%d.%d", i, b2i(cs.Oneway), i, cs.Proxy%len(r.prxs)))
+	} else {
+		r.ev(fmt.Sprintf("B.%d.%d.%d", i, b2i(cs.Oneway), i))
+	}
 	slot := len(r.res.Calls)
 	r.res.Calls = append(r.res.Calls, CallResult{I: i, Spec: specIdx, Oneway: cs.Oneway, StartUs: r.us(), Outcome: "hang", RespTag: -1})
 	r.mu.Unlock()
@@ -682,6 +754,10 @@ func RunChild(sc *Scenario) *Result {
 		return res
 	}
 	comm := tars.NewCommunicator()
+	if err := installFilters(sc.Filter); err != nil {
+		res.Error = err.Error()
+		return res
+	}
 	cl := sc.Client
 	if cl.QueueLen > 0 {
 		comm.Client.ClientQueueLen = cl.QueueLen
@@ -715,11 +791,19 @@ func RunChild(sc *Scenario) *Result {
 			fs.close()
 		}
 	}()
-	p := &prx{}
-	comm.StringToProxy("App.Server.Obj@"+strings.Join(eps, ":"), p)
-	if cl.ProxyTimeoutMs > 0 {
-		p.s.TarsSetTimeout(cl.ProxyTimeoutMs)
+	nprx := sc.Proxies
+	if nprx < 1 {
+		nprx = 1
 	}
+	for k := 0; k < nprx; k++ {
+		q := &prx{}
+		comm.StringToProxy("App.Server.Obj@"+strings.Join(eps, ":"), q)
+		if cl.ProxyTimeoutMs > 0 {
+			q.s.TarsSetTimeout(cl.ProxyTimeoutMs)
+		}
+		r.prxs = append(r.prxs, q)
+	}
+	p := r.prxs[0]
 	if sc.MsgID0 != nil {
 		tars.VerifSetMsgID(*sc.MsgID0)
 	}
@@ -752,7 +836,7 @@ func RunChild(sc *Scenario) *Result {
 			close(startC)
 			wg.Wait()
 		}
-		r.counters(p, -1)
+		r.counters(-1)
 	}
 
 	maxWave := -1
@@ -774,7 +858,7 @@ func RunChild(sc *Scenario) *Result {
 				if d := time.Until(waveStart.Add(time.Duration(c.DelayMs) * time.Millisecond)); d > 0 {
 					time.Sleep(d)
 				}
-				r.oneCall(p, si, c, done)
+				r.oneCall(si, c, done)
 			}(si, c)
 		}
 		for k := 0; k < n; k++ {
@@ -784,15 +868,15 @@ func RunChild(sc *Scenario) *Result {
 				r.mu.Lock()
 				res.Capped = true
 				r.mu.Unlock()
-				r.counters(p, w)
+				r.counters(w)
 				res.WallMs = time.Since(r.t0).Milliseconds()
 				return snapshot(r)
 			}
 		}
-		r.counters(p, w)
+		r.counters(w)
 		if w < maxWave && sc.GapMs > 0 {
 			time.Sleep(time.Duration(sc.GapMs) * time.Millisecond)
-			r.counters(p, w)
+			r.counters(w)
 		}
 	}
 	res.WallMs = time.Since(r.t0).Milliseconds()
@@ -804,6 +888,7 @@ func RunChild(sc *Scenario) *Result {
 func snapshot(r *runner) *Result {
 	r.mu.Lock()
 	defer r.mu.Unlock()
+	r.res.FilterHit = atomic.LoadInt64(&filterCalls)
 	b, _ := json.Marshal(r.res)
 	out := &Result{}
 	json.Unmarshal(b, out)
